@@ -27,10 +27,11 @@ def tier_params(tier: str) -> dict:
                     gen_o2=600, determinism_pairs=200, max_len=12, hunt_stmts=6000,
                     hunt_runs=int(os.environ.get("VERIF_C10_HUNT", 3000)), pair_models=all_option_sets(), oo_len=6,
                     triples=not os.environ.get("VERIF_C10_NOTRIPLES"))
-    return dict(n_hash=8, replicas=2, n_hash311=0, histories=int(os.environ.get("VERIF_C10_HISTORIES", 12000)),
+    return dict(n_hash=8, replicas=2, n_hash311=0, histories=int(os.environ.get("VERIF_C10_HISTORIES", 9000)),
                 floor_len=3, crash_enum=["short:for_break"], gen_o2=240, determinism_pairs=32, max_len=12,
-                hunt_stmts=6000, hunt_runs=int(os.environ.get("VERIF_C10_HUNT", 128)),
-                pair_models=[{"unparser": "oneliner", "expr_wrapper": "list", "if_style": "short_circuit"}], oo_len=5, triples=False)
+                hunt_stmts=6000, hunt_runs=int(os.environ.get("VERIF_C10_HUNT", 112)),
+                pair_models=[{"unparser": "oneliner", "expr_wrapper": "list", "if_style": "short_circuit"}], oo_len=5, triples=False,
+                pair_models_short_only=True)
 
 
 # ---------------------------------------------------------------------------------------------
@@ -488,6 +489,9 @@ def run(repo: str, tier: str, seed: int, replay_dir=None, write_ev=True, jobs=No
             for a in A_keys:
                 for b in B_keys:
                     if a == b:
+                        continue
+                    if m is not None and P.get("pair_models_short_only") and not (
+                            a.startswith(("short:", "fail:")) and b.startswith(("short:", "fail:"))):
                         continue
                     pair_hist.append(pre + [{"op": "conv", "prog": a, "obj": oid}, {"op": "conv", "prog": b, "obj": oid}])
         pjobs = []
